@@ -20,8 +20,10 @@ EXPLANATION = (
     'Decides structural necessary conditions of C02 from MIR: (R1) ranger::Store::put evaluated on parent sequences with '
     'the storage trait answered by an oracle: it rejects iff new<=parent (truth table over Less/Equal/Greater) and prunes '
     'iff new>=child; Record order is (timestamp, hash) lexicographic; (R2) the parent lookup does not filter deletion '
-    'markers and can look up the empty key; (R3) exclusive end bounds of variable-length key prefixes are computed by a '
-    'successor that can shorten; (R4) prefix-removal bounds derive from the namespace/author/key of the entry inserted; '
+    'markers, and parents() evaluated on (key, stored prefixes) cells yields every stored prefix of the key including the '
+    'empty key and the key itself and nothing else; (R3) exclusive end bounds of variable-length key prefixes are computed '
+    'by a successor that can shorten, increment_by_one / prefix_successor evaluated on concrete byte strings (trailing '
+    '0xFF runs, all-0xFF, empty); (R4) prefix-removal bounds derive from the namespace/author/key of the entry inserted; '
     '(R5) no store mutation precedes a NotInserted return. NOT decided: commutativity/idempotence over all permutations as '
     'such (value-level).'
 )
